@@ -65,7 +65,11 @@ def pickOrigin (oref : Option Int) (dflt : Option Int) : Option Int :=
   | some r => if r ≠ 0 then some r else dflt
   | none => dflt
 
-def copyNumber (w : World) (k : Key) (name : PStr) : Nat := (itemsOfKey w k).countP (fun it => it.name = name)
+/-- `LogicalFile._register`: once the set of the new object is registered with the logical file, the object is numbered
+among the objects of its type and name in ALL the sets of that type the logical file has (registered) -/
+def copyNumber (w : World) (lf kind : Nat) (sn : Option PStr) (name : PStr) : Nat :=
+  (w.items.filter (fun it => decide (it.kind = kind) && decide (it.key ∈ lfKeys (touchKey w lf (kind, sn)) lf))).countP
+    (fun it => it.name = name)
 
 def appendItem (w : World) (it : Item) : World := { w with items := w.items ++ [it] }
 
@@ -78,7 +82,7 @@ def addItem (w : World) (lf kind : Nat) (sn : Option PStr) (name : PStr) (oref :
   | .ok =>
     let w1 := touchKey w lf (kind, sn)
     appendItem w1 { lf := lf, kind := kind, setName := sn, name := name,
-                    origin := pickOrigin oref (defaultOrigin w lf), copy := copyNumber w (kind, sn) name }
+                    origin := pickOrigin oref (defaultOrigin w lf), copy := copyNumber w lf kind sn name }
   | _ => w
 
 def nextFree (refs : List Int) : Nat → Int → Int
@@ -112,7 +116,7 @@ def addOrigin (w : World) (lf : Nat) (sn : Option PStr) (name : PStr) (oref : Op
     | .ok =>
       let w1 := touchKey w lf (0, sn)
       let w2 := appendItem w1 { lf := lf, kind := 0, setName := sn, name := name, origin := some r,
-                                copy := copyNumber w (0, sn) name }
+                                copy := copyNumber w lf 0 sn name }
       (if (originsOfLf w2 lf).length = 1 then backfill w2 lf r else w2, true)
     | _ => (w, false)
 
